@@ -163,6 +163,9 @@ def build(recipe):
                 parts.insert(pos, new)
     keep_meta = meta_mode in ("permaze", "collected")
     mazes = [SolvedMaze(cl, sol, generation_meta=(meta if keep_meta else None)) for cl, sol, meta in parts]
+    if recipe.get("endpoint_kwargs"):
+        # endpoint options recorded in the configuration (coordinate lists are lists of TUPLES in a configuration; a JSON recipe has lists)
+        cfg_kw["endpoint_kwargs"] = {k: ([tuple(int(c) for c in x) for x in v] if isinstance(v, (list, tuple)) else v) for k, v in recipe["endpoint_kwargs"].items()}
     cfg = MazeDatasetConfig(n_mazes=len(mazes), **cfg_kw)
     out = MazeDataset(cfg=cfg, mazes=mazes, generation_metadata_collected=({} if meta_mode == "empty" else None))
     if meta_mode == "collected":
